@@ -175,6 +175,37 @@ func semverCases(c *Cfg, r *Rng) {
 			c.Count("semver/pair invalid-invalid")
 		}
 	}
+	// pre-release identifier lists on a common core: exhaustive over a small identifier
+	// alphabet (numeric, alphanumeric starting with a digit or hyphen, case, length)
+	idents := []string{"0", "1", "2", "9", "10", "11", "1a", "a1", "-", "-1", "1-", "a", "A", "b", "rc", "alpha", "0a", "x-y", "99999999999999999999", "100000000000000000000"}
+	var pres []string
+	for _, a := range idents {
+		pres = append(pres, a)
+		for _, b := range idents {
+			pres = append(pres, a+"."+b)
+		}
+	}
+	if c.Thorough() {
+		for i := 0; i < 3000; i++ {
+			pres = append(pres, Pick(r, idents)+"."+Pick(r, idents)+"."+Pick(r, idents))
+		}
+	}
+	preVs := []string{"v1.0.0"}
+	for _, p := range pres {
+		preVs = append(preVs, "v1.0.0-"+p)
+	}
+	npre := c.Pick(120000, 1500000)
+	for i := 0; i < npre; i++ {
+		a, b := Pick(r, preVs), Pick(r, preVs)
+		if r.Chance(1, 10) {
+			b = b + "+" + Pick(r, idents)
+		}
+		res := ordName(semver.Compare(a, b))
+		c.Op("O", "cmp "+H(a)+" "+H(b), res)
+		c.Case("cmp "+a+" "+b, a != b)
+		c.Count("semver/prerelease-pair " + res)
+	}
+	vs = append(vs, preVs...)
 	// total-order laws evaluated on the implementation alone
 	triples := c.Pick(100000, 1000000)
 	for i := 0; i < triples; i++ {
